@@ -57,6 +57,9 @@ type Prop interface {
 
 var props = map[string]Prop{}
 
+// debugOn prints every scheduling step (diagnosis of a single replay only).
+var debugOn = os.Getenv("VERIF_DEBUG") != ""
+
 // bubble runs f in a synctest bubble and recovers the end-of-bubble deadlock
 // panic (tasks left blocked inside the code under test after a violation).
 func bubble(t *testing.T, f func()) (deadlock bool) {
